@@ -54,6 +54,12 @@ func (r *recorder) add(isErr bool, a []interface{}) {
 	r.entries = append(r.entries, entry{Err: isErr, Args: append([]any(nil), a...)})
 	r.mu.Unlock()
 }
+func (r *recorder) reset() {
+	r.mu.Lock()
+	r.entries = nil
+	r.mu.Unlock()
+}
+
 func (r *recorder) snapshot() []entry {
 	r.mu.Lock()
 	defer r.mu.Unlock()
@@ -86,6 +92,11 @@ type Case struct {
 	Env    []string `json:"env,omitempty"` // extra environment variables NAME=value, echoed back by the child
 	// Cancel: the child stays alive for a minute after its writes and the run is cancelled this way
 	Cancel string `json:"cancel,omitempty"` // "" | ctx | deadline | Cancel
+	// PriorRuns (execute only): the same Subprocess object has already been executed that many times (same command) right
+	// before the run that is judged: an object is not a one-shot thing (Restart, supervisors re-using a command)
+	PriorRuns int `json:"prior_runs_of_the_same_object,omitempty"`
+	// Repeat: replays only - run the case that many times (schedule-dependent findings)
+	Repeat int `json:"repeat,omitempty"`
 }
 
 const alphaASCII = "abcdefghijklmnopqrstuvwxyzABCDEFGHIJKLMNOPQRSTUVWXYZ0123456789 _-+=/.,:;!?()[]{}<>@#$%^&*'\"\\|~`"
@@ -249,6 +260,9 @@ func genCase(t *rapid.T) Case {
 			c.Cancel = "ctx" // Output() gives no handle to call Cancel on
 		}
 	}
+	if c.Entry == "execute" && c.Cancel == "" && rapid.IntRange(0, 4).Draw(t, "used-before") == 0 {
+		c.PriorRuns = rapid.IntRange(1, 3).Draw(t, "prior-runs")
+	}
 	return c
 }
 
@@ -361,6 +375,14 @@ func check(t ev.T, test string, c Case) {
 		p, nerr := subprocess.NewWithEnvironment(runCtx, rec, env, startMsg, okMsg, failMsg, proctree.Self(), args...)
 		if nerr != nil {
 			ev.Fail(t, prop, test, c, "NewWithEnvironment failed: %v", nerr)
+		}
+		if c.PriorRuns > 0 && c.Cancel == "" {
+			for k := 0; k < c.PriorRuns; k++ {
+				ev.Guard(t, prop, test, c, func() { _ = p.Execute() })
+			}
+			rec.reset()
+			began = time.Now()
+			ev.Class("the object had been executed before")
 		}
 		switch c.Cancel {
 		case "ctx":
@@ -604,7 +626,9 @@ func init() {
 		if err := json.Unmarshal(raw, &c); err != nil {
 			t.Fatalf("HARNESS: %v", err)
 		}
-		check(t, "TestScripts", c)
+		for i := 0; i < 1 || i < c.Repeat; i++ {
+			check(t, "TestScripts", c)
+		}
 	})
 }
 
